@@ -148,6 +148,8 @@ structure StreamCfg where
   patRepeats : Nat := 0
   /-- cut single-section PMT units into many small packets (6 and more packets per unit) -/
   longPMT : Bool := false
+  /-- send the PAT as two sections in one unit, each listing a part of the PMT PIDs (needs >= 2 PMT PIDs) -/
+  splitPAT : Bool := false
 
 def shuffle {α} (xs : List α) : Gen (List α) := do
   let mut a := xs.toArray
@@ -166,7 +168,18 @@ def genStream (cfg : StreamCfg) : Gen StreamModel := do
   -- PAT: one section; PMT units: 1..multiPMT sections (cut points conformant, see mkPSIUnitMulti)
   if !cfg.pmtPIDs.isEmpty then
     let ps ← patSection cfg.pmtPIDs
-    let u ← mkPSIUnit 0 [ps]
+    let u ← (if cfg.splitPAT ∧ cfg.pmtPIDs.length ≥ 2 then do
+        -- two sections of one PAT: programmes 1.. on the first PMT PID(s), the rest in the second section
+        let k := cfg.pmtPIDs.length / 2
+        let tsid ← randField 16
+        let mk (pids : List Nat) (off sn : Nat) : Gen (PSISection × Bytes) := do
+          let progs := pids.zipIdx.map fun (pid, i) => ({ programMapID := pid, programNumber := off + i + 1 } : PATProgram)
+          let sh ← genSyntaxHeader tsid
+          pure (mkSection 0 false (some { sh with sectionNumber := sn, lastSectionNumber := 1 }) { pat := some { programs := progs, transportStreamID := tsid } })
+        let s1 ← mk (cfg.pmtPIDs.take k) 0 0
+        let s2 ← mk (cfg.pmtPIDs.drop k) k 1
+        mkPSIUnitMulti 0 [s1, s2] true
+      else mkPSIUnit 0 [ps])
     units := units ++ [u]
     firstPatN := u.chunks.length
     for _ in [0:cfg.patRepeats] do
